@@ -1,5 +1,6 @@
 SPECIFICATION Spec
 CONSTANTS
+  FailingGov = FALSE
   MaxHeight = 2
   MaxTx = 3
   MaxFail = 1
